@@ -18,6 +18,7 @@ Unreliable link (`mhist`): `Net.link` is set per step - `d` drops every frame (t
 RESPONSE_TIMEOUT is 0 on this node because answers arrive inside `send_message`, raises SdoCommunicationError at
 once; the wait for the TPDO returns None), `x` answers the upload of 0x6502 with abort 0x06020000.
 """
+import os
 import struct
 
 import canopen
@@ -28,7 +29,7 @@ from canopen.profiles import p402
 ID = "C19"
 PROOF_MODULES = ["CanopenProofs.C19", "CanopenProofs.Lemmas.P402", "CanopenProofs.Lemmas.P402Graph",
                  "CanopenProofs.Lemmas.P402Safe", "CanopenProofs.Lemmas.P402ProgS",
-                 "CanopenProofs.Lemmas.P402ProgP", "CanopenProofs.C19Mode"]
+                 "CanopenProofs.Lemmas.P402ProgP", "CanopenProofs.C19Mode", "CanopenProofs.C19Cfg"]
 GENERATED = ["P402Tables"]
 THEOREMS = [
     "Canopen.C19.decode_exact",
@@ -47,6 +48,12 @@ THEOREMS = [
     "Canopen.C19.mode_failure_reported",
     "Canopen.C19.cache_unset_while_failing",
     "Canopen.C19.mode_history_outputs",
+    "Canopen.C19.cache_after_frame",
+    "Canopen.C19.cfg_live",
+    "Canopen.C19.statusword_after_frame",
+    "Canopen.C19.statusword_after_frames",
+    "Canopen.C19.statusword_after_cycle",
+    "Canopen.C19.pdo_served_iff",
 ]
 FINGERPRINT = [
     "canopen.profiles.p402:State402",
@@ -62,6 +69,15 @@ FINGERPRINT = [
     "canopen.profiles.p402:BaseNode402.op_mode",
     "canopen.profiles.p402:BaseNode402.is_op_mode_supported",
     "canopen.profiles.p402:BaseNode402.on_TPDOs_update_callback",
+    "canopen.profiles.p402:BaseNode402.setup_402_state_machine",
+    "canopen.profiles.p402:BaseNode402.setup_pdos",
+    "canopen.pdo.base:PdoMap.read",
+    "canopen.pdo.base:PdoMap.clear",
+    "canopen.pdo.base:PdoMap.add_variable",
+    "canopen.pdo.base:PdoMap.save",
+    "canopen.pdo.base:PdoMap.subscribe",
+    "canopen.pdo.base:PdoMap.add_callback",
+    "canopen.pdo.base:PdoMap.on_message",
 ]
 TRUSTED = [
     "Spec/Drive402.lean and the Python reference drive in harness/props/c19.py: my reading of the CiA 402 "
@@ -78,13 +94,24 @@ ASSUMPTIONS = [
     "(e.g. 'DISABLE VOLTAGE') are neither generated nor modelled",
     "PDO transport: an initial TPDO has been received before the assignment (otherwise the cached 0 "
     "reads as NOT READY TO SWITCH ON); the TPDO is periodic, the RPDO event driven",
+    "configuration histories: two TPDOs, four layouts of statusword / mode display; a re-mapping is followed by "
+    "setup_pdos(upload=False); RPDO1 is never re-mapped; a drive transmits all its TPDOs in one cycle showing the "
+    "same sample (frames showing different values: op `swl`); histories that end with TPDO1 switched off are "
+    "left out of the generated stream (the unchanged tree then waits for TPDO1 for ever: see TPDO1_OFF_IN_STREAM)",
 ]
 RULE = ("ops `sw n t` (decode statusword n over transport t), `goto start rst target transport auto12 d "
         "extra F S schedule` (one assignment against the reference drive), `hist start rst transport auto12 extra F S "
         "items` (several assignments on one node, item 8 = a fault occurs in between), `mode name mask transport delay M`, "
         "`mhist transport mask steps` (mode steps on one node object: a<i> assignment / q<i> is_op_mode_supported / r0 read, "
         "each with the link u = reachable, d = no response, x = 0x6502 aborted; failures before the first successful "
-        "look-up included); "
+        "look-up included); the PDO transport token is `p` or `p<history>`, the configuration history of the node "
+        "object after its first set-up: a/b = setup_pdos(upload=False/True), m = setup_402_state_machine(), t/r/q = "
+        "node.tpdo/rpdo/pdo.read(), y = statusword additionally mapped in TPDO2, x = statusword moved to TPDO2, w = "
+        "back to TPDO1 (each re-mapping: maps changed on the node object, save(), setup_pdos(False)), z = TPDO1 "
+        "switched off, everything in TPDO2 (generated only with VERIF_C19_TPDO1_OFF=1); `hist` items 10..15 = a b m t "
+        "r q between assignments; `swl n1 n2 k p<history>` = statusword in both TPDOs, the other TPDO shows n1, then "
+        "TPDO k shows n2; 37 systematic histories x (decoding of all low-7-bit patterns, all 8x8 pairs, all modes) "
+        "plus seeded histories; "
         "all 65536 statuswords; all 8x8 pairs x both transports x both reset-bit values x schedules with <= 2 "
         "firings among the first accesses, extra status bits seeded; all modes x all masks of the ten mode "
         "bits plus seeded 32-bit masks; non-trivial = a state other than UNKNOWN decoded / at least one "
@@ -226,16 +253,51 @@ def make_od():
         v.data_type = t
         v.access_type = "rw"
         d.add_object(v)
-    # PDO 1 communication / mapping parameter records (the maps are configured locally, never uploaded)
-    for base, nm in ((0x1400, "RPDO1 com"), (0x1600, "RPDO1 map"), (0x1800, "TPDO1 com"), (0x1A00, "TPDO1 map")):
+    # PDO communication / mapping parameter records (RPDO1, TPDO1, TPDO2)
+    for base, nm in ((0x1400, "RPDO1 com"), (0x1600, "RPDO1 map"), (0x1800, "TPDO1 com"), (0x1A00, "TPDO1 map"),
+                     (0x1801, "TPDO2 com"), (0x1A01, "TPDO2 map")):
         rec = od.ODRecord(nm, base)
         for sub in range(0, 3):
             v = od.ODVariable(f"{nm} {sub}", base, sub)
-            v.data_type = dt.UNSIGNED8 if sub == 0 or base < 0x1600 and sub == 2 else dt.UNSIGNED32
+            v.data_type = PDO_PARAM_TYPE(base, sub)
             v.access_type = "rw"
             rec.add_member(v)
         d.add_object(rec)
     return d
+
+
+def PDO_PARAM_TYPE(base, sub):
+    com = base < 0x1600 or 0x1800 <= base < 0x1A00
+    return dt.UNSIGNED8 if sub == 0 or com and sub == 2 else dt.UNSIGNED32
+
+
+SW_IDX, DISP_IDX = 0x6041, 0x6061
+# TPDO layouts of the drive (and, after the application re-mapped, of the node object): per TPDO None = switched
+# off, else the objects mapped.  L1 is the configuration every PDO-transport node starts with.
+LAYOUTS = {"w": ((SW_IDX, DISP_IDX), None),            # L1: statusword + mode display in TPDO1
+           "y": ((SW_IDX, DISP_IDX), (SW_IDX,)),       # L2: the statusword in TPDO1 AND in TPDO2
+           "x": ((DISP_IDX,), (SW_IDX,)),              # L3: the statusword moved to TPDO2, TPDO1 keeps the mode display
+           "z": (None, (SW_IDX, DISP_IDX))}            # L4: both moved to TPDO2, TPDO1 switched off
+OBJ_BITS = {0x6040: 16, 0x6041: 16, 0x6060: 8, 0x6061: 8}
+CFG_LETTERS = "abmtrq" + "wyxz"
+HIST_CFG_ITEMS = {10: "a", 11: "b", 12: "m", 13: "t", 14: "r", 15: "q"}
+
+
+def split_transport(tr):
+    """`p<history>` -> ("p", history); the history is a string over CFG_LETTERS"""
+    if tr[:1] == "p" and len(tr) > 1:
+        if any(c not in CFG_LETTERS for c in tr[1:]):
+            raise ValueError(f"transport {tr!r}")
+        return "p", tr[1:]
+    return tr, ""
+
+
+def layout_after(cfg):
+    lay = "w"
+    for c in cfg:
+        if c in LAYOUTS:
+            lay = c
+    return lay
 
 
 class Net(canopen.Network):
@@ -246,6 +308,30 @@ class Net(canopen.Network):
         super().__init__()
         self.drive, self.nid = drive, node_id
         self.ts = 0.0
+        n = node_id
+        # the drive's PDO configuration objects (what an upload reads, what a `save()` writes)
+        self.pdocfg = {(0x1400, 0): 2, (0x1400, 1): 0x200 + n, (0x1400, 2): 255,
+                       (0x1600, 0): 2, (0x1600, 1): 0x60400010, (0x1600, 2): 0x60600008,
+                       (0x1800, 0): 2, (0x1800, 1): 0x180 + n, (0x1800, 2): 1,
+                       (0x1A00, 0): 2, (0x1A00, 1): 0x60410010, (0x1A00, 2): 0x60610008,
+                       (0x1801, 0): 2, (0x1801, 1): 0x80000280 + n, (0x1801, 2): 1,
+                       (0x1A01, 0): 0, (0x1A01, 1): 0, (0x1A01, 2): 0}
+        self._tx = None
+
+    def tx_layout(self):
+        """[(TPDO number, COB-ID, [(index, bits)])] of the TPDOs the drive transmits, from its configuration objects"""
+        if self._tx is None:
+            self._tx = []
+            for k, (com, mp) in enumerate(((0x1800, 0x1A00), (0x1801, 0x1A01)), 1):
+                cob = self.pdocfg[(com, 1)]
+                if cob & 0x80000000:
+                    continue
+                ents = [self.pdocfg[(mp, i)] for i in range(1, self.pdocfg[(mp, 0)] + 1)]
+                self._tx.append((k, cob & 0x7FF, [(e >> 16, e & 0xFF) for e in ents]))
+        return self._tx
+
+    def transmits(self, k):
+        return any(t[0] == k for t in self.tx_layout())
 
     link = "u"          # "u" every request served; "d" nothing gets through; "x" 0x6502 does not exist
 
@@ -269,11 +355,19 @@ class Net(canopen.Network):
                 elif idx == 0x6502:
                     drv.support_reads += 1
                     resp = struct.pack("<BHBL", 0x43, idx, sub, drv.supported)
+                elif (idx, sub) in self.pdocfg:
+                    small = PDO_PARAM_TYPE(idx, sub) == dt.UNSIGNED8
+                    resp = struct.pack("<BHBL", 0x4F if small else 0x43, idx, sub, self.pdocfg[(idx, sub)])
+                elif 0x1400 <= idx < 0x1C00:
+                    resp = struct.pack("<BHBL", 0x80, idx, sub, 0x06090011)
                 else:
                     resp = struct.pack("<BHBL", 0x80, idx, sub, 0x06020000)
             elif cmd & 0xE0 == 0x20 and cmd & 0x02:                # expedited download
                 n = 4 - ((cmd >> 2) & 3) if cmd & 1 else 4
-                if idx == 0x6040:
+                if (idx, sub) in self.pdocfg:
+                    self.pdocfg[(idx, sub)] = int.from_bytes(data[4:4 + n], "little")
+                    self._tx = None
+                elif idx == 0x6040:
                     drv.access()
                     drv.controlword(int.from_bytes(data[4:4 + n], "little"))
                 elif idx == 0x6060:
@@ -307,13 +401,57 @@ class Net(canopen.Network):
         self.push_tpdo()
 
     def push_tpdo(self, mode_read=False):
+        """one transmission cycle of the drive: every TPDO it is configured to transmit, lowest number first, all
+        showing the same sample of statusword and mode display"""
         disp = self.drive.read_mode_display() if mode_read else self.drive.mode_display
-        data = struct.pack("<Hb", self.drive.statusword(), disp)
-        self.notify(0x180 + self.nid, bytearray(data), self._stamp())
+        sw = self.drive.statusword()
+        for k, cob, ents in self.tx_layout():
+            self.send_tpdo(cob, ents, sw, disp)
+
+    def send_tpdo(self, cob, ents, sw, disp):
+        val = off = 0
+        for idx, bits in ents:
+            v = sw if idx == SW_IDX else disp if idx == DISP_IDX else 0
+            val |= (v & ((1 << bits) - 1)) << off
+            off += bits
+        self.notify(cob, bytearray(val.to_bytes((off + 7) // 8, "little")), self._stamp())
+
+    def push_one(self, k, sw):
+        """TPDO k alone, showing statusword `sw` (the drive's statusword at that moment)"""
+        for kk, cob, ents in self.tx_layout():
+            if kk == k:
+                self.send_tpdo(cob, ents, sw, self.drive.mode_display)
+
+
+CFG_CALLS = {"a": lambda node: node.setup_pdos(upload=False),
+             "b": lambda node: node.setup_pdos(upload=True),
+             "m": lambda node: node.setup_402_state_machine(),
+             "t": lambda node: node.tpdo.read(),
+             "r": lambda node: node.rpdo.read(),
+             "q": lambda node: node.pdo.read()}
+
+
+def apply_cfg(node, net, letter):
+    """one step of the configuration history of a node object whose PDO transport is already set up"""
+    if letter in CFG_CALLS:
+        CFG_CALLS[letter](node)
+        return
+    # the application re-maps the TPDOs: change the maps on the node object, save them to the drive (SDO),
+    # and let the profile look at the PDO configuration again
+    for k, idxs in enumerate(LAYOUTS[letter], 1):
+        tp = node.tpdo[k]
+        tp.clear()
+        tp.cob_id, tp.trans_type = (0x180 if k == 1 else 0x280) + net.nid, 1
+        tp.enabled = idxs is not None
+        for idx in idxs or ():
+            tp.add_variable(idx)
+        tp.save()
+    node.setup_pdos(upload=False)
 
 
 def make_node(drive, transport, F=8, S=4, M=5):
     nid = 5
+    transport, cfg = split_transport(transport)
     net = Net(drive, nid)
     node = p402.BaseNode402(nid, make_od())
     net.add_node(node)
@@ -334,18 +472,27 @@ def make_node(drive, transport, F=8, S=4, M=5):
         tp.add_variable(0x6041)
         tp.add_variable(0x6061)
         node.setup_pdos(upload=False)
-        # "wait for the next TPDO" = the drive emits its periodic TPDO now (no real waiting)
-        def wait(timeout=10, _tp=tp, _net=net):
-            if net.link == "d":
-                return None                            # no TPDO comes: time-out of wait_for_reception
-            if net.tpdo_mode_read:
-                net.push_tpdo(mode_read=True)
-            else:
-                net.emit_tpdo()
-            return _tp.timestamp
-        tp.wait_for_reception = wait
+        # "wait for the next TPDO k" = the drive performs its next transmission cycle now (no real waiting);
+        # a TPDO the drive does not transmit never comes
+        def make_wait(k, _tp):
+            def wait(timeout=10):
+                if net.link == "d" or not net.transmits(k):
+                    return None                        # no TPDO comes: time-out of wait_for_reception
+                if net.tpdo_mode_read:
+                    net.push_tpdo(mode_read=True)
+                else:
+                    net.emit_tpdo()
+                return _tp.timestamp
+            return wait
+        for k in (1, 2):
+            node.tpdo[k].wait_for_reception = make_wait(k, node.tpdo[k])
         net.tpdo_mode_read = False
         net.push_tpdo()                                # the TPDO received before the assignment
+        if cfg:
+            node.nmt.state = "PRE-OPERATIONAL"         # setup_pdos(upload=True) insists on it (NMT command: not for the drive)
+            for letter in cfg:
+                apply_cfg(node, net, letter)
+            net.push_tpdo()                            # the periodic TPDOs keep coming
     elif transport == "d":
         # the same objects are mapped in PDOs that are switched off: the profile must not use them (SDO fallback)
         rp, tp = node.rpdo[1], node.tpdo[1]
@@ -395,8 +542,22 @@ def _run_impl(op):
             _SW_NODES[tr] = (drv,) + make_node(drv, tr)
         drv, node, net, clock = _SW_NODES[tr]
         drv.statusword = lambda n=n: n
-        if tr == "p":
+        if tr[0] == "p":
             net.push_tpdo()
+        s = node.state
+        return f"{NAMES.index(s) if s in NAMES else ('U' if s == 'UNKNOWN' else '?' + str(s))}"
+    if a[0] == "swl":
+        # both TPDOs carry the statusword: the drive sends the other one showing n1, then TPDO k showing n2
+        n1, n2, k, tr = int(a[1]), int(a[2]), int(a[3]), a[4]
+        key = ("swl", tr)
+        if key not in _SW_NODES:
+            drv = Drive(NRTSO, 0, 0, 0, [], NEVER)
+            _SW_NODES[key] = (drv,) + make_node(drv, tr)
+        drv, node, net, clock = _SW_NODES[key]
+        if k not in (1, 2) or tr[0] != "p" or layout_after(tr[1:]) != "y":
+            return "bad-op"
+        net.push_one(3 - k, n1)
+        net.push_one(k, n2)
         s = node.state
         return f"{NAMES.index(s) if s in NAMES else ('U' if s == 'UNKNOWN' else '?' + str(s))}"
     if a[0] == "goto":
@@ -426,7 +587,12 @@ def _run_impl(op):
             if item == 8:                      # a fault occurs: the drive enters its fault reaction
                 drv._enter(FRA)
                 continue
-            if tr == "p":
+            if item in HIST_CFG_ITEMS:         # the application looks at the PDO configuration again
+                if tr[0] == "p":
+                    node.nmt.state = "PRE-OPERATIONAL"
+                    apply_cfg(node, net, HIST_CFG_ITEMS[item])
+                continue
+            if tr[0] == "p":
                 net.push_tpdo()                # the TPDO received before this assignment
             try:
                 node.state = NAMES[item]
@@ -444,7 +610,7 @@ def _run_impl(op):
         drv.supported, drv.mode_delay = mask, delay
         node, net, clock = make_node(drv, tr, M=M)
         net.rpdo_is_mode = True
-        if tr == "p":
+        if tr[0] == "p":
             net.tpdo_mode_read = True
         try:
             node.op_mode = MODES[mi]
@@ -461,7 +627,7 @@ def _run_impl(op):
         drv.supported, drv.mode_delay = mask, delay
         node, net, clock = make_node(drv, tr, M=M)
         net.rpdo_is_mode = True
-        if tr == "p":
+        if tr[0] == "p":
             net.tpdo_mode_read = True
         try:
             node.op_mode = MODES[mi]
@@ -485,7 +651,7 @@ def _run_impl(op):
         drv.supported = mask
         node, net, clock = make_node(drv, tr)
         net.rpdo_is_mode = True
-        if tr == "p":
+        if tr[0] == "p":
             net.tpdo_mode_read = True
         results = []
         for kind, mi, link in parse_msteps(a[3]):
@@ -558,6 +724,15 @@ def oracle(op, out):
             return (f"statusword 0x{int(a[1]):04X} reported as {out}, CiA 402 says "
                     f"{NAMES[hits[0]] if hits else 'no state (UNKNOWN)'}")
         return None
+    if a[0] == "swl":
+        n1, n2, k = int(a[1]), int(a[2]), int(a[3])
+        hits = decode_spec(n2)
+        exp = str(hits[0]) if hits else "U"
+        if out != exp:
+            return (f"statusword in two TPDOs (configuration history {a[4][1:]!r}): TPDO{3 - k} showed 0x{n1:04X}, then "
+                    f"TPDO{k} showed 0x{n2:04X} - the drive's latest statusword - but the state is reported as {out}, "
+                    f"CiA 402 says {NAMES[hits[0]] if hits else 'no state (UNKNOWN)'}")
+        return None
     if a[0] == "goto":
         start, rst, target, d, F, S = int(a[1]), int(a[2]), int(a[3]), int(a[6]), int(a[8]), int(a[9])
         res, kv = parse_out(out)
@@ -591,7 +766,7 @@ def oracle(op, out):
     if a[0] == "hist":
         res, kv = parse_out(out)
         items = unnl(a[8])
-        targets = [i for i in items if i != 8]
+        targets = [i for i in items if i != 8 and i not in HIST_CFG_ITEMS]
         results = [] if res == "-" else res.split("/")
         trace, cws, st = unnl(kv["trace"]), unnl(kv["cw"]), int(kv["st"])
         if len(results) != len(targets):
@@ -617,7 +792,7 @@ def oracle(op, out):
         want = 0
         if res == "ok":
             want = 0 if name == "NO MODE" else MODE_BIT_CODE[name][1]
-        if a[3] == "p" and any(c != want for c in carried):
+        if a[3][0] == "p" and any(c != want for c in carried):
             return (f"modef: after mode {name} was {'set' if res == 'ok' else 'refused'} an RPDO sent for the "
                     f"controlword carried mode code(s) {carried}, the mode in force is {want}")
         return None
@@ -716,8 +891,41 @@ def oracle_mhist(a, out):
     return None
 
 
-def signature(op, what):
+TRANSPORT_POS = {"sw": 2, "swl": 4, "goto": 4, "hist": 3, "mode": 3, "modef": 3, "mhist": 1}
+# Histories that end with TPDO1 switched off (layout `z`) are not generated unless asked for: on the unchanged
+# tree `tpdo_pointers` keeps naming TPDO1, `check_statusword` waits for a TPDO that never comes and every
+# assignment over PDO ends in RuntimeError (reported to the coordinator as a finding candidate).
+TPDO1_OFF_IN_STREAM = bool(os.environ.get("VERIF_C19_TPDO1_OFF"))
+
+
+def cfg_of(op):
     a = op.split(" ")
+    pos = TRANSPORT_POS.get(a[0])
+    if pos is None or pos >= len(a):
+        return None
+    tr, cfg = split_transport(a[pos])
+    return cfg if tr == "p" and cfg else None
+
+
+def model_skips(op):
+    """the model answers `unmodelled` when the configuration history leaves the profile waiting for a TPDO the
+    drive no longer transmits; the oracle judges those operations alone"""
+    cfg = cfg_of(op)
+    return cfg is not None and layout_after(cfg) == "z" and op.split(" ")[0] not in ("sw", "swl")
+
+
+def signature(op, what):
+    sig = signature0(op, what)
+    cfg = cfg_of(op)
+    if cfg is not None and layout_after(cfg) == "z":
+        sig += ":tpdo1-off"
+    return sig
+
+
+def signature0(op, what):
+    a = op.split(" ")
+    if a[0] == "swl":
+        return "swl:decode"
     if a[0] == "mhist":
         if what.rsplit("): ", 1)[-1].startswith("read "):
             return "mhist:read"
@@ -748,15 +956,28 @@ def nontrivial(op, out):
         return out != "U"
     if a[0] in ("goto", "hist"):
         return " cw=-" not in out
+    if a[0] == "swl":
+        return out != "U"
     if a[0] == "mhist":
         return any(not r.endswith(":-") for r in out.split("/") if r != "-")     # a mode reached the drive
     return " wr=-" not in out
 
 
 def classify(op, out):
+    cfg = cfg_of(op)
+    if cfg is not None:       # one class per op kind and TPDO layout; the histories themselves are listed by RULE
+        a = op.split(" ")
+        pos = TRANSPORT_POS[a[0]]
+        return classify0(" ".join(a[:pos] + ["p+cfg-" + layout_after(cfg)] + a[pos + 1:]), out)
+    return classify0(op, out)
+
+
+def classify0(op, out):
     a = op.split(" ")
     if a[0] == "sw":
         return "sw:" + a[2] + ":" + ("unknown" if out == "U" else "state")
+    if a[0] == "swl":
+        return "swl:" + a[4] + ":" + ("unknown" if out == "U" else "state")
     if a[0] == "goto":
         return f"goto:{a[4]}:{out.split(' ')[0]}"
     if a[0] == "hist":
@@ -770,6 +991,19 @@ def classify(op, out):
 
 
 def shrink_candidates(op):
+    cfg = cfg_of(op)
+    if cfg is not None:                    # a shorter configuration history first
+        a = op.split(" ")
+        pos = TRANSPORT_POS[a[0]]
+        for i in range(len(cfg)):
+            short = cfg[:i] + cfg[i + 1:]
+            if a[0] == "swl" and layout_after(short) != "y":
+                continue
+            yield " ".join(a[:pos] + ["p" + short] + a[pos + 1:])
+    yield from shrink_candidates0(op)
+
+
+def shrink_candidates0(op):
     a = op.split(" ")
     if a[0] == "mhist":
         steps = parse_msteps(a[3])
@@ -898,6 +1132,102 @@ def gen_ops(tier, rng):
     #    use of 0x6502) fails - drive unreachable / object missing - for chosen steps, the very first included
     for op in gen_mhist(quick, rng):
         yield op
+    # -- the configuration history of the node object as a dimension of the PDO transport: set up again, PDO
+    #    configuration read again, TPDOs re-mapped; then decoding, all 8 x 8 transitions, histories, mode ops
+    for op in gen_cfg(quick, rng):
+        yield op
+
+
+# configuration histories after the first set-up (letters: see CFG_CALLS and LAYOUTS), every one leaving TPDO1 transmitted
+CFG_SYSTEMATIC = ["a", "b", "m", "t", "r", "q",                                   # once more / read again
+                  "mm", "bb", "ab", "ba", "mt", "tm", "qb", "tr", "rq", "tt", "mtm",
+                  "y", "yb", "ym", "yt", "yq", "ya",                              # statusword in two TPDOs
+                  "x", "xb", "xm", "xt", "xq",                                    # statusword moved to TPDO2
+                  "yx", "xy", "yw", "xw", "xwm", "zw", "zwb", "ztw", "xyt"]       # re-mapped twice / back
+CFG_TPDO1_OFF = ["z", "zb", "zm", "zt", "xz", "yz"]
+
+
+def random_cfg(rng):
+    while True:
+        cfg = "".join(rng.choice("abmtrqabmtrqwyxz") for _ in range(rng.randrange(1, 6)))
+        if TPDO1_OFF_IN_STREAM or layout_after(cfg) != "z":
+            return cfg
+
+
+def gen_cfg(quick, rng):
+    cfgs = CFG_SYSTEMATIC + (CFG_TPDO1_OFF if TPDO1_OFF_IN_STREAM else [])
+    F, S = 500, 40
+    sample = [0x0650, 0x0631, 0x0633, 0x0637, 0x0617, 0x061F, 0x0618, 0x0000, 0xFFFF, 0x0250, 0x0027]
+    # -- decoding: the low seven bits decide (all of them), the other bits seeded; thorough: every statusword for
+    #    the single steps, a stride for the rest
+    for ci, cfg in enumerate(cfgs):
+        if quick:
+            ns = [low | (rng.getrandbits(9) << 7) for low in range(128)] + sample
+        elif len(cfg) == 1:
+            ns = range(65536)
+        else:
+            ns = list(range(ci % 13, 65536, 13)) + sample
+        for n in ns:
+            yield f"sw {n} p{cfg}"
+    # -- the statusword in both TPDOs, showing different values one after the other: the later frame counts
+    for cfg in [c for c in cfgs if layout_after(c) == "y"] + ["yr", "ymm", "wy", "zy"]:
+        for s1 in range(8):
+            for s2 in range(8):
+                for k in (1, 2):
+                    n1 = (rng.getrandbits(16) & ~PATTERN[s1][0]) | PATTERN[s1][1]
+                    n2 = (rng.getrandbits(16) & ~PATTERN[s2][0]) | PATTERN[s2][1]
+                    yield f"swl {n1} {n2} {k} p{cfg}"
+        for _ in range(30 if quick else 2000):
+            yield f"swl {rng.getrandbits(16)} {rng.getrandbits(16)} {rng.choice((1, 2))} p{cfg}"
+    # -- all 8 x 8 pairs under every systematic history
+    for cfg in cfgs:
+        for start in range(8):
+            for target in range(8):
+                for rst in ((rng.getrandbits(1),) if quick else (0, 1)):
+                    for d in ((rng.choice((0, 1, 3)),) if quick else (0, 1, 3, 6)):
+                        a12 = rng.getrandbits(1) if start == QSA or target in (OE, QSA) else 0
+                        yield goto(start, rst, target, "p" + cfg, a12, d, rng.getrandbits(16), F, S, [])
+                if not quick and start in (NRTSO, FRA, QSA):
+                    for i in range(12):
+                        yield goto(start, rng.getrandbits(1), target, "p" + cfg, rng.getrandbits(1), 6,
+                                   rng.getrandbits(16), F, S, [i])
+    # -- seeded: history, schedule, time-outs all random
+    for _ in range(1200 if quick else 25000):
+        k = rng.choice((0, 1, 2, 3))
+        sched = rng.sample(range(40), k)
+        d = rng.choice((0, 1, 2, 5, 6, 20, NEVER))
+        S2 = rng.choice((1, 2, 4, 9, 30, 40))
+        F2 = rng.choice((1, 3, 8, 2 * S2, 12 * S2, 500))
+        yield goto(rng.randrange(8), rng.getrandbits(1), rng.randrange(8), "p" + random_cfg(rng),
+                   rng.getrandbits(1), d, rng.getrandbits(16), F2, S2, sched)
+    # -- histories of assignments with faults AND configuration steps in between (items 10..15 = a b m t r q)
+    for cfg in ("", "m", "b", "y", "x"):
+        for item in HIST_CFG_ITEMS:
+            yield f"hist {SOD} 0 p{cfg} 0 {rng.getrandbits(16)} 500 40 {OE},{item},{RTSO},8,{item},{SO}"
+            yield f"hist {FAULT} 1 p{cfg} 0 {rng.getrandbits(16)} 500 40 {item},{SOD},{item},{item},{OE},{QSA}"
+    for _ in range(250 if quick else 5000):
+        items = [rng.choice(COMMANDABLE + (8, 8) + tuple(HIST_CFG_ITEMS)) for _ in range(rng.randrange(2, 9))]
+        tr = "p" + (random_cfg(rng) if rng.getrandbits(1) else "")
+        yield (f"hist {rng.randrange(8)} {rng.getrandbits(1)} {tr} {rng.getrandbits(1)} "
+               f"{rng.getrandbits(16)} 500 40 {nl(items)}")
+    for _ in range(20 if quick else 300):             # the same items over SDO: they change nothing there
+        items = [rng.choice(COMMANDABLE + (8,) + tuple(HIST_CFG_ITEMS)) for _ in range(rng.randrange(2, 7))]
+        yield f"hist {rng.randrange(8)} {rng.getrandbits(1)} s 0 {rng.getrandbits(16)} 500 40 {nl(items)}"
+    # -- mode of operation and its display over PDO under the histories
+    for cfg in cfgs:
+        for mi in range(len(MODES)):
+            bit = MODE_BIT_CODE.get(MODES[mi], (None,))[0]
+            for mask in ([0x3EF] if bit is None else [0x3EF, 0x3EF & ~(1 << bit)]):
+                yield f"mode {mi} {mask} p{cfg} {rng.choice((0, 0, 1, 2, 6))} 5"
+        for mi in rng.sample(range(len(MODES)), 3 if quick else len(MODES)):
+            yield f"modef {mi} {rng.choice((0x3EF, rng.getrandbits(10)))} p{cfg} 0 5"
+        yield f"mhist p{cfg} 37 a3d,a3u,q5u,r0u,a4u,r0d,a1x,a6u,r0u"
+    for _ in range(200 if quick else 5000):
+        steps = []
+        for _ in range(rng.randrange(1, 8)):
+            k = rng.choice("aaaqrr")
+            steps.append((k, 0 if k == "r" else rng.randrange(len(MODES)), rng.choice("uuuudx")))
+        yield f"mhist p{random_cfg(rng)} {rng.choice((rng.getrandbits(10), 0x3EF))} {fmt_msteps(steps)}"
 
 
 def gen_mhist(quick, rng):
@@ -942,6 +1272,12 @@ CORPUS = [
     # the first supported-modes look-up meets a drive that does not answer / has no 0x6502; once the drive is there
     # an advertised mode is written with its code, an unadvertised one refused (nothing may be remembered from
     # the failed look-up)
+    # the node object is set up a second time / its PDO configuration read again: the statusword carried by the TPDO
+    # is still the one decoded and waited for (C19_31E7: the cache followed the stale PdoVariable objects)
+    "sw 567 pm",
+    "hist 1 0 p 0 0 500 40 2,12,3,13,4",
+    "goto 1 0 4 pmm 0 0 0 500 40 -",
+    "swl 39 567 2 py",
     "mhist s 37 a3d,a3u,r0u,a4u",
     "mhist p 37 q3x,q3u,a3u,r0u",
 ]
@@ -956,7 +1292,10 @@ LEVEL_TEXT = ("Lean 4 theorems over the generated 402 tables: every statusword d
               "for every 0x6502 mask; over ALL histories of mode steps on one node object with the drive unreachable or "
               "0x6502 aborted at any steps (the first look-up included): the remembered supported-modes value is unset or "
               "the advertised one, so a reachable drive gets every advertised mode written with its code and every other "
-              "one refused, and a failed look-up is never turned into a refusal")
+              "one refused, and a failed look-up is never turned into a refusal; over ALL configuration histories of "
+              "the node object (set up again, PDO configuration read again, TPDOs re-mapped) the statusword cache after a "
+              "received frame is that frame's field whichever PdoVariable object carries it, the last frame of either "
+              "TPDO counting, so decoding and the transition theorems apply unchanged whenever TPDO1 is still transmitted")
 LEVEL_NOTE = ("trusted: Lean kernel + propext/Classical.choice/Quot.sound; the CiA 402 drive specification "
               "(Spec/Drive402.lean, Python reference drive); real time-outs are abstracted (tick counter in the "
               "correspondence, arbitrary choice in the safety theorem); the correspondence is as strong as its generator")
